@@ -40,6 +40,9 @@ type Run struct {
 func (f *Run) Call(s *slip.Scope, args slip.List, depth int) (result slip.Object) {
 	slip.CheckArgCount(s, depth, f, args, 1, 1)
 	if args[0] != nil {
+		// The form is evaluated in the caller's scope by another thread so
+		// variable access on that scope and its ancestors must be protected.
+		s.SynchronizeAll()
 		go func() { _ = args[0].Eval(s, depth) }()
 	}
 	return slip.Novalue
